@@ -245,6 +245,17 @@ theorem C01_system_output_wellformed {n : Nat} (s : System ℝ n) (hs : s.Ok) (f
     congr 1
     exact List.map_congr_left (fun f _ => (hfs f).2.1 h2c)
 
+/-- the same for every reachable state: all scenes, all histories -/
+theorem C01_system_output_wellformed_reachable {n : Nat} (s : System ℝ n) (h : System.Reach s) (frames ch : Nat)
+    (hch : 1 ≤ ch) :
+    ∃ (r' : Renderer ℝ (SysSnd ℝ) (SysFx ℝ n) Unit (SysEnv ℝ)) (samples : List ℝ),
+      (s.r.onStart s.C s.V).process s.C s.V frames ch = .ok (r', samples)
+        ∧ System.Reach ({ s with r := r' } : System ℝ n)
+        ∧ samples.length = frames * ch ∧ (∀ x ∈ samples, -1 ≤ x ∧ x ≤ 1) := by
+  obtain ⟨r', samples, _, hp, _, _, _, hl, hr, _, _⟩ :=
+    C01_system_output_wellformed s (C01_system_invariant s h) frames ch hch
+  exact ⟨r', samples, hp, .callback s frames ch hch r' samples h hp, hl, hr⟩
+
 /-! ### non-vacuity -/
 
 /-- a low-pass filter, as its builder makes it -/
